@@ -1,15 +1,15 @@
 SPECIFICATION Spec
 CONSTANTS
-  Mode = "matrix"
-  ProtoSets <- QProtoSets
-  CodecSeqs <- QCodecSeqs
-  CompSeqs <- QCompSeqs
+  Mode = "headers"
+  ProtoSets <- SingleProtoSets
+  CodecSeqs <- OneCodecSeqs
+  CompSeqs <- NoCompSeqs
   ClientForms <- QForms
   ClientCodecs <- QCodecs
-  ClientComps <- QComps
-  Methods <- QMethods
-  MaxMsgs = 2
-  EndCodes <- OkOnly
+  ClientComps <- NoComps
+  Methods <- EMethods
+  MaxMsgs = 1
+  EndCodes <- HCodes
   HttpStatuses <- NoStatuses
   FlagValues <- QFlags
   Emit = TRUE
